@@ -211,9 +211,15 @@ def hygiene_case(cid, rng):
     sel = rng.choice(["", "delegate_by = Self", "delegate_by = ref", "delegate_by = Borrow"])
     dyn = "ref" in sel or "Borrow" in sel
     is_async = (not dyn) and rng.random() < 0.4
+    # the receiver, too, is written by the macro (next to the attribute) or handed in by the invocation
+    recv = "&self"
+    if rng.random() < 0.5:
+        matcher.append("[$($recv:tt)*]")
+        call_args.append("[&self]")
+        recv = "$($recv)*"
     L = ["macro_rules! make_trait {", "    (%s) => {" % ", ".join(matcher),
          "        #[::entrait::entrait(%s)] /*@inv*/" % sel,
-         "        pub trait $tr%s { %sfn m0(&self, %s) -> ::std::string::String; }" % (": 'static" if dyn else "", "async " if is_async else "", ", ".join("%s: i32" % x for x in ps)),
+         "        pub trait $tr%s { %sfn m0(%s, %s) -> ::std::string::String; }" % (": 'static" if dyn else "", "async " if is_async else "", recv, ", ".join("%s: i32" % x for x in ps)),
          "    };", "}", "make_trait!(%s);" % ", ".join(call_args)]
     fid = "%s::Prov::m0" % cid
     hand = ["x%d" % i for i in range(n)]
